@@ -23,6 +23,7 @@ set in _set_run_connections_according_to_dag) are id()-dependent: they are read 
 the implementation and handed to the model as inputs of the op (the theorems quantify over them).
 """
 import json
+import signal
 
 from harness import lib
 from harness.lib import cb, cl, cn
@@ -130,6 +131,16 @@ def statics(case):
 
 # ---- the real universe ------------------------------------------------------------------
 _TREE_LOG = []
+OP_TIME_LIMIT = 1.0      # CPU seconds (20 s wall as a backstop); a library call that does not return is an
+#                          outcome ("Timeout"), not a hang of the check.  Ordinary ops take < 50 ms.
+
+
+class _Timeout(BaseException):      # not an Exception: the library's `except Exception` must not swallow it
+    pass
+
+
+def _on_alarm(signum, frame):
+    raise _Timeout()
 
 
 def _install_tree_hook():
@@ -269,11 +280,29 @@ class Universe:
         del _TREE_LOG[:]
         kids_before = [self.node_idx[id(c)] for c in self.wfs[op[1]].children.values()] \
             if k in ("wire_dag", "run_wf") else None
+        def timers(cpu, wall, again):
+            signal.setitimer(signal.ITIMER_VIRTUAL, cpu, again)     # keeps firing through `finally` blocks
+            signal.setitimer(signal.ITIMER_REAL, wall, again)
+        old = signal.signal(signal.SIGALRM, _on_alarm), signal.signal(signal.SIGVTALRM, _on_alarm)
+        timers(OP_TIME_LIMIT, 20.0, 0.2)
         try:
-            self.apply(op)
-            code = 0
-        except Exception as e:      # noqa: BLE001 -- every library exception is an outcome
-            code = EXC.get(type(e).__name__, type(e).__name__)
+            try:
+                self.apply(op)
+                code = 0
+            except Exception as e:      # noqa: BLE001 -- every library exception is an outcome
+                code = EXC.get(type(e).__name__, type(e).__name__)
+            finally:
+                timers(0, 0, 0)
+        except _Timeout:
+            timers(0, 0, 0)
+            code = "Timeout"
+        finally:
+            timers(0, 0, 0)
+            signal.signal(signal.SIGALRM, old[0])
+            signal.signal(signal.SIGVTALRM, old[1])
+        if code == "Timeout":
+            del _TREE_LOG[:]
+            return code, None
         rb = None
         if k in ("pull", "call"):
             rb = []
@@ -304,9 +333,18 @@ def run_impl(case):
     prev, _ = u.snapshot()
     prev_labels = u.labels()
     obs, rbs = [], []
+    dead = False
     for op in case["ops"]:
+        if dead:                       # the universe is unusable after a call that never returned
+            obs.append(["skipped", [], [], 0])
+            rbs.append(None)
+            continue
         code, rb = u.step(op)
         rbs.append(rb)
+        if code == "Timeout":
+            dead = True
+            obs.append([code, [], [], 0])
+            continue
         cur, bad = u.snapshot()
         labels = u.labels()
         delta = [[c] + cur[c] for c in range(len(cur)) if cur[c] != prev[c]]
@@ -428,6 +466,8 @@ def oracle(case, obs):
         for row in delta:
             cur[row[0]] = list(row[1:])
         where = f"after op {t} {op[0]}"
+        if code == "Timeout":
+            return f"hang: {where}: the call did not return within {OP_TIME_LIMIT} s"
         if not isinstance(code, int):
             return f"unexpected-exception: {where} raised {code}"
         if bad:
@@ -561,11 +601,12 @@ def _gen_universe(rng, nmin, nmax):
     nn = rng.randint(nmin, nmax)
     nwf = rng.choice([1, 2, 2])
     nodes = []
+    cohesive = rng.random() < 0.5          # most nodes siblings: pulls and wirings succeed more often
     for _ in range(nn):
         kind = rng.choice([0, 0, 1, 2, 3, 4, 5, 6, 0, 1])
         ins = [l for (l, fl, d, _h, _a) in kind_io(kind) if fl == "Data" and d == "DIn"]
         loose = sorted(l for l in ins if rng.random() < 0.15)
-        wf = rng.choice([0] * 5 + [1] * 2 + [-1] * 3)
+        wf = rng.choice([0] * 8 + [1] + [-1] * 2) if cohesive else rng.choice([0] * 5 + [1] * 2 + [-1] * 4)
         nodes.append([kind, loose, wf if wf < nwf else 0])
     return {"nodes": nodes, "nwf": nwf, "ops": []}
 
@@ -673,6 +714,15 @@ def _gen_op(rng, u):
     if k == "disconnect_all":
         return [k, rng.choice(connected)[0] if connected and rng.random() < 0.75 else rng.choice(allc)]
     if k == "copy_conns":
+        if rng.random() < 0.3:     # a channel that already shares a partner with a busier one (the undo path)
+            part = {}
+            for a, b in connected:
+                part.setdefault(a, set()).add(b)
+            shared = [(a, o) for a in part for o in part if a != o and (st[a][2], st[a][3]) == (st[o][2], st[o][3])
+                      and part[a] & part[o] and len(part[o]) >= 2]
+            if shared:
+                a, o = rng.choice(sorted(shared))
+                return [k, a, o]
         busy = sorted({a for a, _ in connected})
         o = rng.choice(busy) if busy and rng.random() < 0.85 else rng.choice(allc)
         same = [c for c in allc if (st[c][2], st[c][3]) == (st[o][2], st[o][3])]
@@ -699,8 +749,10 @@ def _gen_op(rng, u):
         n = rng.choice(kids[w]) if kids[w] and rng.random() < 0.9 else rng.randrange(nn)
         free = [i for i in orphans if not u.nodes[i].connected]
         same = [i for i in free if u.case["nodes"][i][0] == u.case["nodes"][n][0]]
+        if not free and rng.random() < 0.7:      # nothing could replace anything: do something else
+            return _gen_op(rng, u)
         m = rng.choice(same) if same and rng.random() < 0.5 else \
-            rng.choice(free) if free and rng.random() < 0.8 else rng.randrange(nn)
+            rng.choice(free) if free and rng.random() < 0.85 else rng.randrange(nn)
         return [k, w, n, m]
     if k in ("wire_dag", "run_wf", "wf_disconnect_run"):
         return [k, rng.randrange(nwf)]
@@ -710,21 +762,46 @@ def _gen_op(rng, u):
     raise AssertionError(k)
 
 
+def _prefix_ops(rng, u):
+    """a data DAG over a random order of the nodes (+ a few manual signals), so that pulls see
+    deep trees, wirings see several upstream nodes and copies see several connections"""
+    st, nn = u.st, len(u.nodes)
+    order = list(range(nn))
+    rng.shuffle(order)
+    ops = []
+    for pos in range(1, nn):
+        tgt = order[pos]
+        ins = [c for c, s in enumerate(st) if s[0] == tgt and s[2] == "Data" and s[3] == "DIn"]
+        for _ in range(rng.choice([1, 1, 2, 2, 3])):
+            src = rng.choice(order[:pos])
+            outs = [c for c, s in enumerate(st) if s[0] == src and s[2] == "Data" and s[3] == "DOut"]
+            ops.append(["connect", rng.choice(ins), [rng.choice(outs)]] if rng.random() < 0.6
+                       else ["assign", rng.choice(ins), ["c", rng.choice(outs)]])
+    for _ in range(rng.choice([0, 1, 2, 3])):
+        a, b = rng.sample(order, 2) if nn > 1 else (0, 0)
+        ops.append(["rshift", ["n", a], ["n", b]] if rng.random() < 0.6 else ["lshift", ["n", b], [["n", a]], False])
+    return ops
+
+
 def gen_case(rng, nmin, nmax, lmin, lmax):
     case = _gen_universe(rng, nmin, nmax)
     u = Universe(case)
+    todo = _prefix_ops(rng, u) if rng.random() < 0.35 else []
     for _ in range(rng.randint(lmin, lmax)):
-        op = _gen_op(rng, u)
+        op = todo.pop(0) if todo else _gen_op(rng, u)
         case["ops"].append(op)
-        u.step(op)
+        if u.step(op)[0] == "Timeout":
+            case["_hung"] = True
+            break
     return case
 
 
 def generate(ctx):
     rng = ctx.rng
     out, seen = [], set()
-    n = ctx.n(420, 4000)
-    while len(out) < n:
+    n = ctx.n(600, 4000)
+    hangs = 0
+    while len(out) < n and hangs < 3:      # a library that hangs is reported from the first few such cases
         r = rng.random()
         if ctx.quick:
             c = gen_case(rng, 3, 5, 8, 26) if r < 0.8 else gen_case(rng, 5, 6, 20, 40)
@@ -734,6 +811,7 @@ def generate(ctx):
         if kk not in seen:
             seen.add(kk)
             out.append(c)
+            hangs += bool(c.pop("_hung", False))
     return out
 
 
